@@ -8,7 +8,9 @@
       x/vesting/types/schedule.go                    ReadSchedule, ReadPastPeriodCount
       x/staking/keeper/msg_server.go                 validateDelegationAmountNotUnvested (Delegate, CreateValidator)
       x/vesting/keeper/msg_server.go                 transferClawback, addGrant (tracking reset; the merged schedule
-                                                     itself is an input, see below)
+                                                     itself is an input, see below), ConvertIntoVestingAccount incl.
+                                                     delegateVestedCoins (the Stake option: stakingKeeper.Delegate
+                                                     called directly with the vested part of the message's grant)
       cosmos-sdk x/bank/keeper                       subUnlockedCoins (every account debit: SendCoins,
                                                      SendCoinsFromAccountToModule, InputOutputCoins, BurnCoins after
                                                      the EVM's SetBalance, fee deduction, module deposits),
